@@ -402,7 +402,10 @@ func Run(t *testing.T, prop string, seed uint64, tier string, replay *hcommon.Re
 		res.Violate(prop, "panic", "%s", out.Panic)
 	}
 	if out.Deadlock && res.Abort == "hang" {
+		// nothing can run and no timer is pending while the harness still waits for an answer: a call into the
+		// server never returns
 		res.Extra = map[string]any{"blocked": out.BlockedDump}
+		res.Violate(prop, "blocked-forever", "a call into the control plane never returned (no task can run, no timer is pending):\n%s", out.BlockedDump)
 	}
 	res.Nontrivial = res.Abort == ""
 	return res
